@@ -25,6 +25,7 @@ META = dict(
     technique="lambda extraction + AST-to-term translation, finite value-set enumeration, symbolic-sum identities, closure lint",
 )
 META["text"] += ' (R7, N) make_all_assertions gives every contest the assertions of the factory for its own social choice function, fed with its own winners, the other candidates as losers, its share_to_win / assertion JSON and its own test configuration (one term per iteration against the dispatch table); any other choice function raises.'
+META["text"] += " R6 also decides the tally's validity condition as a table (a card is tallied iff it lists the contest and rules are not enforced or it has at most n_winners marks, whatever the choice function); R5 accepts the mean as np.mean over the filtered cards or as the filtered sum over the filtered count (same filter in numerator and denominator)."
 
 
 def outer_tx(idx):
